@@ -207,42 +207,7 @@ def structure_checks(code, rng, fail, vec_checks=6):
 # ---------------------------------------------------------------------------
 # user-defined codes
 
-def make_user_code(spec):
-    from panqec.codes import StabilizerCode
-    qubits = [tuple(q) for q in spec['qubits']]
-    stabs = [tuple(s) for s in spec['stabs']]
-    ops = {tuple(s): {qubits[i]: p for i, p in op}
-           for s, op in zip(stabs, spec['stab_ops'])}
-    lx = [{qubits[i]: p for i, p in op} for op in spec['logicals_x']]
-    lz = [{qubits[i]: p for i, p in op} for op in spec['logicals_z']]
-    dim = spec['dim']
-
-    class UserCode(StabilizerCode):
-        dimension = dim
-        label = 'user'
-
-        def get_qubit_coordinates(self):
-            return list(qubits)
-
-        def get_stabilizer_coordinates(self):
-            return list(stabs)
-
-        def qubit_axis(self, location):
-            return 'x'
-
-        def stabilizer_type(self, location):
-            return 'generic'
-
-        def get_stabilizer(self, location):
-            return dict(ops[tuple(location)])
-
-        def get_logicals_x(self):
-            return [dict(o) for o in lx]
-
-        def get_logicals_z(self):
-            return [dict(o) for o in lz]
-
-    return UserCode(2)
+from vf.usercode import make_user_code  # noqa: E402
 
 
 @st.composite
